@@ -424,8 +424,18 @@ func (c *control) scanDirBlock(buf []byte, pos int, dirName string, open, close 
 				colon = true
 			case '@':
 				at = true
+			case '-', '0', '1', '2', '3', '4', '5', '6', '7', '8', '9', ',', '#', 'v', 'V':
+				// a prefix parameter, remain in tilde
+			case '\'':
+				// Skip the character and stay in tilde.
+				_, size := utf8.DecodeRune(buf[pos:])
+				pos += size
 			case open:
 				pos = c.scanDirBlock(buf, pos, dirName, open, close, colonOk) + 2
+				if buf[pos-1] == ':' { // nested block closed with the colon modifier
+					pos++
+				}
+				tilde = false
 			case close:
 				if at || (colon && !colonOk) {
 					c.invalidDir(buf, pos)
@@ -1572,17 +1582,25 @@ func (c *control) scanCond(buf []byte, pos int) ([]string, string, int) {
 				colon = true
 			case '@':
 				at = true
+			case '-', '0', '1', '2', '3', '4', '5', '6', '7', '8', '9', ',', '#', 'v', 'V':
+				// a prefix parameter, remain in tilde
+			case '\'':
+				// Skip the character and stay in tilde.
+				_, size := utf8.DecodeRune(buf[pos:])
+				pos += size
 			case ';':
 				strs = append(strs, string(buf[start:pos-2]))
 				start = pos
 				if colon {
 					defNext = true
 				}
+				tilde = false
 			case '[':
 				// This ends up with a double scan, maybe fine for the rare
 				// case where it occurs.
 				_, _, pos = c.scanCond(buf, pos)
 				pos += 2
+				tilde = false
 			case ']':
 				if at || colon {
 					c.invalidDir(buf, pos)
